@@ -458,9 +458,16 @@ def m_unwrap(interp, fn, args, st, site, frame):
 
 
 def m_int_try_from(interp, fn, args, st, site, frame):
-    """integer TryFrom/TryInto: value preserving on the Ok path"""
-    st2 = st.fork()
-    return [(ok(args[0]), st), (err(Top("try-from-int-error")), st2)]
+    """integer TryFrom/TryInto: value preserving on the Ok path; the range check and its outcome are logged
+    (("narrow", target type, value, "Ok" | "Err")) so that rules can ask which value was proved to fit"""
+    full = fn.get("rfull") or fn.get("full") or fn.get("path") or ""
+    m = re.search(r"TryInto<(u8|u16|u32|u64|usize)>>::try_into$|for (u8|u16|u32|u64|usize)>::try_from$", full)
+    tgt = (m.group(1) or m.group(2)) if m else "?"
+    st1, st2 = st.fork(), st.fork()
+    v = interp.abstract(args[0], st1)
+    st1.effect(("narrow", tgt, v, "Ok"))
+    st2.effect(("narrow", tgt, v, "Err"))
+    return [(ok(args[0]), st1), (err(Top("try-from-int-error")), st2)]
 
 
 def m_op_assign(interp, fn, args, st, site, frame):
